@@ -236,7 +236,10 @@ def rule_R04_4(ctx):
                 if a1 and a1[0][0] == "call":
                     mc = g.call_at(a1[0][1])
                     fresh_map = mc is not None and (mc.res or "").endswith("HashMap::<K, V>::new")
-                ok = fresh_map
+                # fresh for every iteration: the push is inside every loop
+                # that contains the evaluation
+                per_iter = all(cc.bb in body for h, body in g.natural_loops().items() if c.bb in body)
+                ok = fresh_map and per_iter
         r.inst("%s: runs the sequence on %s" % (g.path, "a freshly pushed scope" if ok else cp))
         if ok:
             r.ok()
